@@ -84,6 +84,12 @@ func (c *Ctx) privateHelperOf(fn *FuncSrc, allowed Allowed, depth int) bool {
 	return true
 }
 
+// PrivateHelperOf: fn is an unexported helper all of whose call sites lie in functions of the
+// table (see privateHelperOf) — code extracted from a listed function stays covered by its entry.
+func (c *Ctx) PrivateHelperOf(fn *FuncSrc, allowed Allowed) bool {
+	return c.privateHelperOf(fn, allowed, 0)
+}
+
 // Callers lists the distinct callers of target.
 func (c *Ctx) Callers(target types.Object) []string {
 	seen := map[string]bool{}
